@@ -422,7 +422,10 @@ class PhysicalityObserver:
                         name, before.trace, after.trace, lab), self.case, detail)
                 if self.gvalid and self.tau_star <= 1e-4:
                     lost = 1.0 - after.trace
-                    budget = 50 * self.tau_sum + 1e-9
+                    # (calibration: the largest loss / (sum of reference tails) seen on the unchanged tree is ~180, in a
+                    # 21-command two-mode program at cutoff 10 with a lost trace of 3e-7; defects of interest - a missing
+                    # Kraus operator, an unnormalised projection - lose 1e-3 ... 1e-1)
+                    budget = 500 * self.tau_sum + 1e-6
                     rep.dev("%s.trace-loss/budget" % lab, lost / budget if lost > 0 else 0.0, 1.0)
                     if lost > budget:
                         rep.violation(locus, "trace-lost-beyond-truncation", "after %s the trace is %.3e below one although "
